@@ -10,7 +10,9 @@
    Ghost fields of a reported token: [tstart] the offset at which its position was captured,
    [tbad] an earlier un-read crossed a CR/LF, [tover] next() ran again after the end. *)
 From Verif Require Import Lib.Base Lib.Utf8 Model.Lexer
-  Proofs.LexerPos Proofs.LexerScan Proofs.LexerTokens Proofs.LexerShow Proofs.LexerMain.
+  Proofs.LexerPos Proofs.LexerScan Proofs.LexerTokens Proofs.LexerShow Proofs.LexerMain Proofs.LexerParsePos
+  Gen.ParsePos.
+Open Scope Z_scope.
 
 (* Totality of the lexer: for every source and every client, the model never panics (no index
    or slice out of range, ScanRegex never called out of turn), the fuel length+2 always
@@ -103,6 +105,31 @@ Theorem C03_show_source_line_refuted :
   exists src os o, scan_all src [] = LOk os /\ In o os /\ show_source_line src (tpos (otok o)) = Panic.
 Proof. exact show_source_line_refuted. Qed.
 Print Assumptions C03_show_source_line_refuted.
+
+(* Table theorem (tables regenerated from parser/parser.go, internal/resolver/*.go on every
+   check): every position given to ast.PosErrorf is p.pos, a saved copy of it, a ...Pos field
+   of an AST node, a value of p.multiExprs, or the literal {1,1}; every stored position is
+   p.pos or such a copy; p.pos is only assigned from lexer.Scan / lexer.ScanRegex.  So every
+   ParseError position is a position reported by the lexer (to which the theorems above
+   apply) or 1:1. *)
+Theorem C03_parser_reports_lexer_positions :
+  forallb site_ok pos_error_sites = true /\
+  forallb site_ok pos_store_sites = true /\
+  forallb scan_only cur_assign_sites = true /\
+  (10 <=? length pos_error_sites)%nat = true /\ (10 <=? length pos_store_sites)%nat = true /\
+  (2 <=? length cur_assign_sites)%nat = true.
+Proof. exact parser_reports_lexer_positions. Qed.
+Print Assumptions C03_parser_reports_lexer_positions.
+
+(* The model's token numbers and keyword table are those of lexer/token.go (regenerated). *)
+Theorem C03_token_numbers_agree : gen_tokens = model_tokens.
+Proof. exact token_numbers_agree. Qed.
+Print Assumptions C03_token_numbers_agree.
+
+Theorem C03_keywords_agree :
+  List.map (fun kv => (lit (fst kv), tok_value gen_tokens (snd kv))) gen_keywords = keywords.
+Proof. exact keywords_agree. Qed.
+Print Assumptions C03_keywords_agree.
 
 (* ---- non-vacuity: the hypotheses are met by concrete sources ------------------------------ *)
 (* BEGIN{x=1e5 LF y=/a+/}  with the client asking for the regex: every token is guarded *)
